@@ -355,6 +355,88 @@ impl<'a> Gen<'a> {
         }
     }
 
+    /// Byte patterns that look like the start of a tagged element: a tag of the schema (any struct's, not only a
+    /// sibling's), one of the special tags of the specification (three-byte 1F 80 00 / 1F 80 01, 9F 5A / 9F 5B,
+    /// FF 01..FF 04, an arbitrary 1F xx) followed by small length-like bytes.
+    pub fn header_pattern(&self, rng: &mut Rng) -> Vec<u8> {
+        let mut p: Vec<u8> = match rng.below(10) {
+            0 => vec![0x1f, 0x80, 0x00],
+            1 => vec![0x1f, 0x80, 0x01],
+            2 => vec![0x9f, *rng.pick(&[0x5a, 0x5b])],
+            3 => vec![0xff, 1 + rng.below(4) as u8],
+            4 => vec![0x1f, rng.byte()],
+            _ => {
+                let tags: Vec<u16> = self.schema.structs.values().flat_map(|d| d.fields.iter().filter_map(|f| f.tag)).collect();
+                if tags.is_empty() {
+                    vec![0x1f, 0x00]
+                } else {
+                    crate::codec::tag_bytes(*rng.pick(&tags)).unwrap_or(vec![0x1f, 0x01])
+                }
+            }
+        };
+        p.push(*rng.pick(&[0u8, 0, 1, 2, 3, 4, 6, 8]));
+        p
+    }
+
+    /// Overwrite the struct's leading mandatory fixed-width positional fields so that the struct's *encoding* begins
+    /// with `header_pattern`: the pattern may span several fields (a binary count followed by a BCD total, ...).
+    /// Returns false (and leaves `out` untouched) when the pattern is not representable.
+    pub fn lead_with_pattern(&self, rng: &mut Rng, def: &StructDef, out: &mut Vec<(String, Val)>) -> bool {
+        let pat = self.header_pattern(rng);
+        let mut pos = 0usize;
+        let mut new: Vec<(usize, Val)> = vec![];
+        for (i, f) in def.fields.iter().enumerate() {
+            if pos >= pat.len() || f.tag.is_some() || f.card != Card::One {
+                break;
+            }
+            let mut take = |k: usize, fill: u8| -> Vec<u8> {
+                let mut b: Vec<u8> = pat.iter().skip(pos).take(k).cloned().collect();
+                pos += k;
+                while b.len() < k {
+                    b.push(fill);
+                }
+                b
+            };
+            match (&f.enc, &f.len) {
+                (Enc::Int { ty, be }, Len::None) => {
+                    let k = ty.bytes();
+                    let b = take(k, 0);
+                    let mut n: u128 = 0;
+                    for j in 0..k {
+                        n = (n << 8) | (if *be { b[j] } else { b[k - 1 - j] }) as u128;
+                    }
+                    new.push((i, Val::Num(n)));
+                }
+                (Enc::Bcd(ty), Len::Fixed(k)) => {
+                    let b = take(*k, (rng.below(10) as u8) << 4 | rng.below(10) as u8);
+                    if b.iter().any(|x| (x >> 4) > 9 || (x & 0xf) > 9) {
+                        return false;
+                    }
+                    let mut n: u128 = 0;
+                    for x in &b {
+                        n = n * 100 + ((x >> 4) as u128) * 10 + (x & 0xf) as u128;
+                    }
+                    if n > ty.max() {
+                        return false;
+                    }
+                    new.push((i, Val::Num(n)));
+                }
+                (Enc::Hex, Len::Fixed(k)) => {
+                    let b = take(*k, 0x11);
+                    new.push((i, Val::Hex(crate::hex(&b))));
+                }
+                _ => break,
+            }
+        }
+        if pos < 2 || new.is_empty() {
+            return false;
+        }
+        for (i, v) in new {
+            out[i].1 = v;
+        }
+        true
+    }
+
     pub fn gen_struct(&self, rng: &mut Rng, def: &StructDef, presence: Presence, depth: usize) -> Val {
         let opt = Self::optional_fields(def);
         let p_present = [15u64, 50, 85][rng.below(3) as usize];
@@ -404,6 +486,10 @@ impl<'a> Gen<'a> {
                 }
             };
             out.push((f.name.clone(), v));
+        }
+        // now and then: the struct's encoding begins like a tagged element (pattern spanning the leading fields)
+        if rng.chance(1, 10) {
+            self.lead_with_pattern(rng, def, &mut out);
         }
         // now and then: one present scalar field gets a value that looks like a sibling's header
         if rng.chance(1, 8) {
